@@ -7,9 +7,12 @@ package drive
 
 import (
 	"context"
+	"encoding/json"
 	"fmt"
+	"io"
 	"net"
 	"net/http"
+	"net/http/httptest"
 	"strings"
 	"sync"
 	"time"
@@ -192,17 +195,31 @@ type respRig struct {
 	grpcSrv   *grpc.Server
 	grpcConn  *grpc.ClientConn
 	transport *http.Transport
+	realEnv   bool        // keep LnS's real environment cache (lookups go to the fake Honeycomb API over HTTP)
+	api       *respFakeAPI // fake Honeycomb API (only for realEnv rigs)
 }
 
 var respRigs = map[string]*respRig{}
 
 // respGetRig returns the (cached) rig for a router type; all mutable state is reset.
-func respGetRig(routerType string) (*respRig, error) {
-	if g, ok := respRigs[routerType]; ok {
+func respGetRig(routerType string) (*respRig, error) { return respGetRigEnv(routerType, false) }
+
+// respGetRigEnv: with realEnv the router keeps the environment cache LnS built (real lookupEnvironment
+// against a fake Honeycomb API on a local socket), so key IDs work; otherwise the cache is replaced
+// through SetEnvironmentCache on every reset (fault injection, no network).
+func respGetRigEnv(routerType string, realEnv bool) (*respRig, error) {
+	name := routerType
+	if realEnv {
+		name += "/realenv"
+	}
+	if g, ok := respRigs[name]; ok {
 		g.reset()
 		return g, nil
 	}
-	g := &respRig{}
+	g := &respRig{realEnv: realEnv}
+	if realEnv {
+		g.api = newRespFakeAPI()
+	}
 	g.cfg = &config.MockConfig{
 		GetListenAddrVal:     "127.0.0.1:0",
 		GetPeerListenAddrVal: "127.0.0.1:0",
@@ -241,7 +258,7 @@ func respGetRig(routerType string) (*respRig, error) {
 	if g.handler == nil {
 		return nil, fmt.Errorf("router has no handler after LnS")
 	}
-	respRigs[routerType] = g
+	respRigs[name] = g
 	g.reset()
 	return g, nil
 }
@@ -262,7 +279,14 @@ func (g *respRig) reset() {
 	g.cfg.GetAccessKeyConfigVal = config.AccessKeyConfig{SendKeyMode: "none"}
 	g.cfg.QueryAuthToken = ""
 	g.cfg.GetHoneycombAPIVal = respAPIHost
+	if g.api != nil {
+		g.cfg.GetHoneycombAPIVal = g.api.srv.URL
+		g.api.reset()
+	}
 	g.cfg.Mux.Unlock()
+	if g.realEnv {
+		return
+	}
 	// fresh environment cache: every case starts with nothing cached
 	g.router.SetEnvironmentCache(time.Hour, func(key string) (string, error) {
 		g.envCalls = append(g.envCalls, key)
@@ -332,3 +356,65 @@ func (r *respErrReader) Read(p []byte) (int, error) {
 	return 0, fmt.Errorf("injected body read failure")
 }
 func (r *respErrReader) Close() error { return nil }
+
+// ---- fake Honeycomb API ---------------------------------------------------------------------------
+
+// respKeyID is the key ID the fake /1/auth reports: a pure function of the key (so the router's
+// environment cache can never hold a stale answer): "" is never asked for, classic keys have none.
+func respKeyID(key string) string {
+	if key == "" || config.IsLegacyAPIKey(key) {
+		return ""
+	}
+	n := 4
+	if len(key) < n {
+		n = len(key)
+	}
+	return "kid-" + key[:n]
+}
+
+type respSeen struct {
+	Method, Path, RawQuery, Host string
+	Header                       http.Header
+	Body                         []byte
+}
+
+// respFakeAPI answers /1/auth like Honeycomb and records / scripts everything else (the proxy's upstream).
+type respFakeAPI struct {
+	srv   *httptest.Server
+	mu    sync.Mutex
+	seen  []respSeen
+	reply func(w http.ResponseWriter, r *http.Request, body []byte)
+}
+
+func newRespFakeAPI() *respFakeAPI {
+	a := &respFakeAPI{}
+	a.srv = httptest.NewServer(http.HandlerFunc(func(w http.ResponseWriter, r *http.Request) {
+		body, _ := io.ReadAll(r.Body)
+		if r.URL.Path == "/1/auth" && r.Method == "GET" && r.Header.Get("X-Verif-Proxied") == "" {
+			key := r.Header.Get("X-Honeycomb-Team")
+			w.Header().Set("Content-Type", "application/json")
+			json.NewEncoder(w).Encode(map[string]any{
+				"id":             respKeyID(key),
+				"api_key_access": map[string]bool{"events": true},
+				"team":           map[string]string{"slug": "team"},
+				"environment":    map[string]string{"slug": "env", "name": "env-of-" + key},
+			})
+			return
+		}
+		a.mu.Lock()
+		a.seen = append(a.seen, respSeen{Method: r.Method, Path: r.URL.Path, RawQuery: r.URL.RawQuery, Host: r.Host,
+			Header: r.Header.Clone(), Body: body})
+		reply := a.reply
+		a.mu.Unlock()
+		if reply != nil {
+			reply(w, r, body)
+		}
+	}))
+	return a
+}
+
+func (a *respFakeAPI) reset() {
+	a.mu.Lock()
+	a.seen, a.reply = nil, nil
+	a.mu.Unlock()
+}
